@@ -103,8 +103,13 @@ static void wake_waiters (nsync_dll_list_ to_wake_list, int all_readers) {
 				   - the first waiter can't acquire *pmu, or
 				   - the first waiter is a writer, or
 				   - this element is a writer. */
-				if (p_w == NULL) {
-					/* wake non-native waiter */
+				if (p_w == NULL || p_w->cv_mu != pmu) {
+					/* wake non-native waiter, or a waiter not known
+					   to be using *pmu (it called
+					   nsync_cv_wait_with_deadline_generic() with its
+					   own lock routines): it will not clear
+					   MU_DESIG_WAKER when it reacquires, so it must
+					   not be woken from *pmu's queue.  */
 				} else if (first_cant_acquire || first_is_writer || p_is_writer) {
 					to_wake_list = nsync_dll_remove_ (to_wake_list, p);
 					pmu->waiters = nsync_dll_make_last_in_list_ (pmu->waiters, p);
